@@ -22,7 +22,7 @@ THEOREMS = ['C18_import_found_is_looked_up', 'C18_lookup_agrees_partial', 'C18_l
             'C18_roundtrip_partial', 'C18_roundtrip_default_partial', 'C18_roundtrip_root_package_refuted',
             'C18_package_listing', 'C18_package_listing_no_duplicates', 'C18_nonvacuous',
             'C18_listing_with_packages', 'C18_listed_names_keep_prefix', 'C18_selection_names_partial',
-            'C18_answers_depend_on_current_tree_only', 'C18_history_nonvacuous']
+            'C18_selection_nonvacuous', 'C18_answers_depend_on_current_tree_only', 'C18_history_nonvacuous']
 LEVEL = 'proof'
 DRIVER = 'harness.drivers.c18'
 
